@@ -58,7 +58,7 @@ def _txt(draw):
 def _plain(draw, kind):
     alphabet = draw(st.sampled_from(["DNA", "RNA", "PROTEIN"]))
     table = {"DNA": DNA, "RNA": RNA, "PROTEIN": AA}[alphabet]
-    n = draw(st.integers(2 if alphabet != "PROTEIN" else 1, 60))
+    n = draw(st.sampled_from([1, 2, 3])) if draw(st.integers(0, 5)) == 0 else draw(st.integers(1, 60))
     letters = [draw(st.sampled_from(sorted(table))) for _ in range(n)]
     lines = _break(draw, letters)
     # the file may end without a line break after its last line
